@@ -186,6 +186,11 @@ impl Format {
             if is_last
                 || ((cur_token.is_numeric() && !char.is_numeric())
                     || (!cur_token.is_numeric() && (cur_item.sep_char_is(char))))
+                // The second separator of the previous token, right before a name (month, weekday, time scale).
+                || (idx == prev_idx
+                    && idx > 0
+                    && !cur_token.is_numeric()
+                    && prev_item.second_sep_char_is(char))
             {
                 // If we've found the second separator of the previous token, let's simply increment the start index of the next substring.
                 if idx == prev_idx
